@@ -15,6 +15,7 @@ var harnesses = map[string]func(){
 	"C18NoInput":      C18NoInput,
 	"C18Generate":     C18Generate,
 	"C15Run":          C15Run,
+	"T0Pipeline":      T0Pipeline,
 	"C11MarkerSubstitution": C11MarkerSubstitution,
 	"C11ExtractComments":    C11ExtractComments,
 	"C13ImportTable":        C13ImportTable,
